@@ -105,6 +105,12 @@ let parse_op (toks : string list) : M.op =
       M.OSubHouseWithdraw (sg, tk, mkt, pidx, mode, amt, ky, dep)
   | x -> raise (Parse ("unknown op " ^ x))
 
+(* SPRM w d: the subaccount module's parameter update (a governance action, Model/Chain.v gstep); everything else is a user operation *)
+let parse_gop (toks : string list) : M.gop =
+  match toks with
+  | "SPRM" :: w :: d :: _ -> M.GSubParams (bi w, bi d)
+  | _ -> M.GUser (parse_op toks)
+
 (* GEN nacc balance supply t0 P betbatch betmin betfee obmax obbatch obthr hmindep hfee hmaxw
        V n k.. M bpy excl nph (infl coef).. *)
 let parse_gen (toks : string list) : M.chain * int =
@@ -145,6 +151,7 @@ let dump (s : M.chain) (nacc : int) : string list =
       List.iter (fun (t, am) -> add (cat ["LOCK"; zs x.M.sa_id; zs t; zs am])) x.M.sa_locks)
     s.M.c_subs;
   add (cat ["SUBNEXT"; zs s.M.c_subnext]);
+  add (cat ["SUBPRM"; (if s.M.c_sub_wager then "1" else "0"); (if s.M.c_sub_deposit then "1" else "0")]);
   add (cat ["VAULT"; zl s.M.c_vault]);
   add (cat ["PCNT"; zs s.M.c_propcnt]);
   List.iter (fun (p : M.proposal) ->
@@ -237,8 +244,8 @@ let replay (file : string) (dumpmodel : bool) : unit =
     | Some optoks, Some s when !mismatch = None ->
         incr nops;
         (try
-           let o = parse_op optoks in
-           let (s', r) = M.step s o in
+           let o = parse_gop optoks in
+           let (s', r) = M.gstep s o in
            st := Some s';
            let mres = out_s r in
            if dumpmodel then begin
